@@ -104,6 +104,25 @@ fn main() {
                 Err(e) => println!("RRT*: Err {:?}", e),
             }
         }
+        "c11_so3_boundary" => {
+            // enforce_bounds projects onto the cone boundary (distance == max_angle up to rounding); satisfies_bounds has no tolerance
+            let centre = SO3State::new(0.1, 0.2, 0.3, 0.9).normalise().unwrap();
+            let space = SO3StateSpace::new(Some((centre, 0.7))).unwrap();
+            let mut rejected = 0;
+            let mut worst: f64 = 0.0;
+            let n = 1000;
+            for k in 0..n {
+                let a = 0.37 * (k as f64) + 0.11;
+                let mut s = SO3State::new(a.sin(), (1.7 * a).cos(), (0.3 * a).sin(), 0.2 * (2.1 * a).cos()).normalise().unwrap();
+                if space.satisfies_bounds(&s) { continue; }
+                space.enforce_bounds(&mut s);
+                if !space.satisfies_bounds(&s) {
+                    rejected += 1;
+                    worst = worst.max(space.distance(&space.bounds.0, &s) - 0.7);
+                }
+            }
+            println!("SO3 cone 0.7 rad: {} of {} enforced states are rejected by satisfies_bounds (worst excess {:e} rad)", rejected, n, worst);
+        }
         "c07_connect" => {
             let mut lasts = vec![];
             for _ in 0..2 {
